@@ -105,6 +105,18 @@ func (w *c17World) consumers(g string, runningOnly bool) int {
 	return n
 }
 
+// eventSyncedGroupsOf: the completion / deletion of a pod is itself "followed by the sync" of the groups
+// the pod carried (the pod controller's handlers call SyncForGpuGroup; nothing else would until an
+// unrelated bind or a binder restart): right after the fault-free handler, a group the pod carried
+// has a reservation pod iff a live pod still carries it.
+func (w *c17World) eventSyncedGroupsOf(pod *v1.Pod) {
+	for k, g := range pod.Labels {
+		if k == constants.GPUGroup || strings.HasPrefix(k, constants.MultiGpuGroupLabelPrefix) {
+			vr.Assert((len(w.reservations(g)) == 1) == (w.consumers(g, false) > 0), "C17.completion-or-deletion-syncs-the-groups-the-pod-carried")
+		}
+	}
+}
+
 // step performs one event of the history; returns false when the chosen event does not apply.
 func (w *c17World) step(i int, faulty bool) bool {
 	ctx := context.Background()
@@ -167,6 +179,7 @@ func (w *c17World) step(i int, faulty bool) bool {
 		old := pod.DeepCopy()
 		pod.Status.Phase = []v1.PodPhase{v1.PodSucceeded, v1.PodFailed}[vr.Choose(vs.Name("endsAs", i), 2)]
 		w.podr.eventHandlers().UpdateFunc(ctx, event.UpdateEvent{ObjectOld: old, ObjectNew: pod.DeepCopy()}, c17Queue{})
+		w.eventSyncedGroupsOf(pod)
 	case 3: // pod k is deleted; the pod controller sees the deletion
 		pod, ok := w.st.Pods[podKey]
 		if !ok {
@@ -174,6 +187,7 @@ func (w *c17World) step(i int, faulty bool) bool {
 		}
 		delete(w.st.Pods, podKey)
 		w.podr.eventHandlers().DeleteFunc(ctx, event.DeleteEvent{Object: pod}, c17Queue{})
+		w.eventSyncedGroupsOf(pod)
 	case 4: // BindRequest k is deleted (by the scheduler); the binder sees the deletion
 		br, ok := w.st.BindRequests[brKey]
 		if !ok {
